@@ -22,6 +22,13 @@
 //!                                                       -> txs page|page..       get_transactions (ungrouped / grouped)
 //!   cap lock|type <script> pre|exact <6 filter tokens>  -> cap <sum> n.h | cap none
 //!   dump                                                -> dump <n> row row ..   every stored row decoded, sorted as strings
+//!   config <keep_num> <prune_interval> p                -> ok        as `config`, with the tx-pool overlay (`Pool`) shared by the
+//!                                                          indexer (`append` -> transactions_committed) and the handle (get_cells, get_cells_capacity)
+//!   pnew <tx> | prej <tx> | pdead                       -> pool op,op.. | pool none   Pool::new_transaction / transaction_rejected; the dead set, sorted
+//!   x <query> && <writer op>                            -> <query answer, first page only> && <writer's answer>
+//!                                                          query = cells.. | cap.. | txs.. (ONE handler call, no cursor); writer = append.. | rollback | pnew.. | prej..:
+//!                                                          the writer's real call runs inside the handler, right after it took its RocksDB snapshot
+//!                                                          (`ckb_indexer::verif_hook`), i.e. between the snapshot and everything else the handler does
 //! Ranges are `a:b`.
 //!
 //! Oracle (independent of the model and of the store): the harness replays the list of blocks that
@@ -46,8 +53,30 @@ use ckb_jsonrpc_types::{
 use ckb_types::core::{BlockBuilder, BlockView, Capacity, HeaderBuilder, ScriptHashType, TransactionBuilder, TransactionView};
 use ckb_types::packed::{self, Byte32, CellInput, CellOutputBuilder, OutPoint, Script, ScriptBuilder};
 use ckb_types::prelude::*;
+use ckb_indexer_sync::Pool;
 use std::collections::{BTreeMap, BTreeSet, HashMap};
 use std::path::PathBuf;
+use std::sync::{Arc, RwLock};
+
+/// a state-changing real call (the only things that write the store or the overlay)
+#[derive(Clone)]
+enum Writer {
+    Append(BlockView),
+    Rollback,
+    PoolNew(TransactionView),
+    PoolReject(TransactionView),
+}
+impl Writer {
+    fn run(&self, idx: &VerifIndexer, pool: Option<&Arc<RwLock<Pool>>>) {
+        match self {
+            Writer::Append(b) => idx.append(b).expect("append"),
+            Writer::Rollback => idx.rollback().expect("rollback"),
+            Writer::PoolNew(tx) => pool.expect("malformed: pool op without overlay").write().expect("lock").new_transaction(tx),
+            Writer::PoolReject(tx) => pool.expect("malformed: pool op without overlay").write().expect("lock").transaction_rejected(tx),
+        }
+    }
+}
+type Dead = BTreeSet<(u64, u32)>;
 
 const NULL_TX: u64 = 0;
 const NULL_IDX: u32 = u32::MAX;
@@ -386,9 +415,9 @@ fn cell_passes(f: &FilterSpec, lock_search: bool, c: &OCell, len_incl: bool) -> 
     }
     in_range(&f.dlr, c.out.data.len() as u64) && in_range(&f.cap, c.out.cap) && in_range(&f.blk, c.bn)
 }
-fn oracle_cells(st: &OState, lock_search: bool, q: &ScriptSpec, exact: bool, f: &FilterSpec, desc: bool, sem: Sem) -> Vec<String> {
+fn oracle_cells(st: &OState, dead: &Dead, lock_search: bool, q: &ScriptSpec, exact: bool, f: &FilterSpec, desc: bool, sem: Sem) -> Vec<String> {
     let mut v: Vec<(Vec<u8>, String)> = vec![];
-    for c in st.live.values() {
+    for c in st.live.values().filter(|c| !dead.contains(&c.op)) {
         let s = if lock_search { Some(&c.out.lock) } else { c.out.type_.as_ref() };
         if let Some(s) = s {
             let key = sort_key(s, c.bn, c.txi, c.op.1, None);
@@ -425,6 +454,18 @@ fn oracle_tx_rows(st: &OState, lock_search: bool, q: &ScriptSpec, exact: bool, f
     }
     v.into_iter().map(|x| x.1).collect()
 }
+/// the direct filter's capacity sum (live cells of the chain minus the overlay's dead cells)
+fn oracle_capacity(st: &OState, dead: &Dead, lock: bool, q: &ScriptSpec, exact: bool, f: &FilterSpec, sem: Sem) -> u64 {
+    st.live
+        .values()
+        .filter(|c| !dead.contains(&c.op))
+        .filter(|c| {
+            let s = if lock { Some(&c.out.lock) } else { c.out.type_.as_ref() };
+            s.map(|s| script_matches(q, exact, s, &sort_key(s, c.bn, c.txi, c.op.1, None), sem)).unwrap_or(false) && cell_passes(f, lock, c, sem.len_incl)
+        })
+        .map(|c| c.out.cap)
+        .sum()
+}
 fn show_tx_row(r: &ORow) -> String {
     format!("{}@{}.{}.{}.{}", r.tx, r.bn, r.txi, r.io, if r.is_input { "i" } else { "o" })
 }
@@ -434,8 +475,17 @@ struct Sim {
     root: PathBuf,
     n_dirs: u64,
     dir: Option<PathBuf>,
-    idx: Option<VerifIndexer>,
+    idx: Option<Arc<VerifIndexer>>,
     handle: Option<IndexerHandle>,
+    /// the tx-pool overlay shared by the indexer and the handle (`config .. p`)
+    pool: Option<Arc<RwLock<Pool>>>,
+    /// oracle-side mirror of the overlay: the out-points it must hold
+    pool_dead: Dead,
+    /// an `x` op in progress: (whole op line, query tokens) until the writer's real call, then (whole op line, query answer)
+    x_pending: Option<(String, Vec<String>)>,
+    x_emit: Option<(String, String)>,
+    n_pool_hidden: u64,
+    n_x_torn: u64,
     keep: u64,
     interval: u64,
     tx_hash: HashMap<u64, Byte32>,
@@ -479,6 +529,12 @@ impl Sim {
             dir: None,
             idx: None,
             handle: None,
+            pool: None,
+            pool_dead: BTreeSet::new(),
+            x_pending: None,
+            x_emit: None,
+            n_pool_hidden: 0,
+            n_x_torn: 0,
             keep: 100,
             interval: 1000,
             tx_hash: HashMap::new(),
@@ -505,6 +561,7 @@ impl Sim {
     fn close(&mut self) {
         self.handle = None;
         self.idx = None;
+        self.pool = None;
         if let Some(d) = self.dir.take() {
             let _ = std::fs::remove_dir_all(d);
         }
@@ -518,13 +575,25 @@ impl Sim {
         self.n_dirs = n;
     }
     fn open(&mut self, keep: u64, interval: u64) {
+        self.open_pool(keep, interval, false)
+    }
+    fn open_pool(&mut self, keep: u64, interval: u64, with_pool: bool) {
         self.close();
         self.n_dirs += 1;
         let d = self.root.join(format!("db{}", self.n_dirs));
         std::fs::create_dir_all(&d).expect("mkdir");
-        let idx = VerifIndexer::open(&d, keep, interval);
-        self.handle = Some(idx.handle(usize::MAX));
-        self.idx = Some(idx);
+        let idx = if with_pool {
+            let (idx, pool) = VerifIndexer::open_with_pool(&d, keep, interval);
+            self.handle = Some(idx.handle_with_pool(Arc::clone(&pool), usize::MAX));
+            self.pool = Some(pool);
+            idx
+        } else {
+            let idx = VerifIndexer::open(&d, keep, interval);
+            self.handle = Some(idx.handle(usize::MAX));
+            idx
+        };
+        self.pool_dead.clear();
+        self.idx = Some(Arc::new(idx));
         self.dir = Some(d);
         self.keep = keep;
         self.interval = interval;
@@ -534,6 +603,207 @@ impl Sim {
     }
     fn idx(&self) -> &VerifIndexer {
         self.idx.as_ref().expect("config first")
+    }
+    /// the answer line of an op: an `x` op prints `<query answer> && <writer answer>` under its own line
+    fn emit(&mut self, out: &mut Out, line: &str, ans: &str) {
+        match self.x_emit.take() {
+            Some((xl, qa)) => out.op(&xl, &format!("{} && {}", qa, ans)),
+            None => out.op(line, ans),
+        }
+    }
+    /// The one place where a writer's real call happens. Inside an `x` op the call runs in the handler of the pending
+    /// query, right after the handler took its snapshot; `post_chain` / `post_dead` = the chain and the overlay after it.
+    fn write(&mut self, out: &mut Out, w: Writer, post_chain: Option<Vec<BlockSpec>>, post_dead: Dead) {
+        match self.x_pending.take() {
+            None => w.run(self.idx(), self.pool.as_ref()),
+            Some((xl, q)) => {
+                let idx = Arc::clone(self.idx.as_ref().expect("config first"));
+                let pool = self.pool.clone();
+                let w2 = w.clone();
+                ckb_indexer::service::verif_hook::set_after_snapshot(Box::new(move || w2.run(&idx, pool.as_ref())));
+                let q: Vec<&str> = q.iter().map(|s| s.as_str()).collect();
+                let ans = self.query_once(out, &q, post_chain.as_deref(), &post_dead);
+                if ckb_indexer::service::verif_hook::clear_after_snapshot() {
+                    // the handler never reached its snapshot (it refused the query): the writer runs now
+                    out.count("x-hook-not-fired");
+                    w.run(self.idx(), self.pool.as_ref());
+                }
+                out.count("x-op");
+                self.x_emit = Some((xl, ans));
+            }
+        }
+    }
+    fn chain_tip_of(chain: &[BlockSpec]) -> String {
+        match chain.last() {
+            Some(b) => format!("{}.{}", b.number, b.id),
+            None => "none".into(),
+        }
+    }
+    /// ONE handler call without cursor (the query half of an `x` op). Oracle (independent of the model): the answer is
+    /// the direct filter over the chain AS IT WAS WHEN THE SNAPSHOT WAS TAKEN (`self.chain`: the writer's bookkeeping
+    /// has not happened yet) minus the cells the overlay holds when the handler reads it (`post_dead`), cut at `limit`;
+    /// for get_cells_capacity: the sum is the direct filter over the chain AT THE REPORTED TIP.
+    fn query_once(&mut self, out: &mut Out, t: &[&str], post_chain: Option<&[BlockSpec]>, post_dead: &Dead) -> String {
+        let lock = t[1] == "lock";
+        let q = ScriptSpec::parse(t[2]);
+        let exact = t[3] == "exact";
+        assert!(t[3] != "part", "malformed: x with partial mode");
+        let judge = self.oracle_valid && !self.chain.is_empty();
+        match t[0] {
+            "cells" => {
+                let desc = t[4] == "desc";
+                let limit: u32 = t[5].parse().expect("limit");
+                assert!(limit >= 1, "malformed: limit 0");
+                let f = FilterSpec::parse(&t[6..12]);
+                let key = self.search_key(lock, &q, exact, f.to_json(), false);
+                let r = self.handle().get_cells(key, if desc { IndexerOrder::Desc } else { IndexerOrder::Asc }, limit.into(), None).expect("get_cells");
+                let page: Vec<String> = r
+                    .objects
+                    .iter()
+                    .map(|c| {
+                        let op: packed::OutPoint = c.out_point.clone().into();
+                        let cap: u64 = c.output.capacity.into();
+                        format!("{}@{}.{}:{}:{}", self.decode_op(op.as_slice()), u64::from(c.block_number), u32::from(c.tx_index), cap, c.output_data.as_ref().map(|d| d.len()).unwrap_or(0))
+                    })
+                    .collect();
+                if judge {
+                    let st = replay_chain(&self.chain);
+                    let want = |sem: Sem| -> Vec<String> { oracle_cells(&st, post_dead, lock, &q, exact, &f, desc, sem).into_iter().take(limit as usize).collect() };
+                    for c in classify(&page, &want, "x-cells-neq-snapshot-filter") {
+                        out.oracle_fail(c, &format!("x {} got={:?} want={:?}", t.join(" "), page, want(SPEC)));
+                    }
+                    if let Some(pc) = post_chain {
+                        let st2 = replay_chain(pc);
+                        if want(SPEC) != oracle_cells(&st2, post_dead, lock, &q, exact, &f, desc, SPEC).into_iter().take(limit as usize).collect::<Vec<_>>() {
+                            out.count("x-cells-answer-depends-on-snapshot");
+                            self.n_x_torn += 1;
+                        }
+                    }
+                }
+                format!("cells {}", if page.is_empty() { "-".into() } else { page.join(",") })
+            }
+            "cap" => {
+                let f = FilterSpec::parse(&t[4..10]);
+                let key = self.search_key(lock, &q, exact, f.to_json(), false);
+                let r = self.handle().get_cells_capacity(key).expect("get_cells_capacity");
+                let ans = match r {
+                    None => "cap none".to_string(),
+                    Some(c) => {
+                        let bh = Byte32::from_slice(c.block_hash.as_bytes()).unwrap();
+                        format!("cap {} {}", u64::from(c.capacity), self.canon_tip(u64::from(c.block_number), &bh))
+                    }
+                };
+                if judge {
+                    let tip = ans.split(' ').nth(2).unwrap_or("none").to_string();
+                    let got_sum: Option<u64> = ans.split(' ').nth(1).and_then(|x| x.parse().ok());
+                    // the chain whose tip the answer reports
+                    let at: Option<&[BlockSpec]> = if tip == Self::chain_tip_of(&self.chain) {
+                        Some(&self.chain)
+                    } else {
+                        post_chain.filter(|pc| tip == Self::chain_tip_of(pc))
+                    };
+                    match at {
+                        None => out.oracle_fail("x-capacity-tip-on-no-chain", &format!("x {} got={} snapshot tip={}", t.join(" "), ans, Self::chain_tip_of(&self.chain))),
+                        Some(ch) => {
+                            let st = replay_chain(ch);
+                            let want = |sem: Sem| -> Option<u64> { Some(oracle_capacity(&st, post_dead, lock, &q, exact, &f, sem)) };
+                            for c in classify(&got_sum, &want, "x-capacity-neq-filter-at-reported-tip") {
+                                out.oracle_fail(c, &format!("x {} got={} want={:?} at tip {}", t.join(" "), ans, want(SPEC), tip));
+                            }
+                        }
+                    }
+                    if let Some(pc) = post_chain {
+                        let a = oracle_capacity(&replay_chain(&self.chain), post_dead, lock, &q, exact, &f, SPEC);
+                        let b = oracle_capacity(&replay_chain(pc), post_dead, lock, &q, exact, &f, SPEC);
+                        if a != b {
+                            out.count("x-cap-sum-depends-on-snapshot");
+                            self.n_x_torn += 1;
+                        }
+                    }
+                }
+                ans
+            }
+            "txs" => {
+                let desc = t[4] == "desc";
+                let limit: u32 = t[5].parse().expect("limit");
+                assert!(limit >= 1, "malformed: limit 0");
+                let group = t[6] == "g";
+                let fs = parse_opt_script(t[7]);
+                let blk = parse_range(t[8]);
+                let fspec = FilterSpec { script: fs.clone(), blk, ..Default::default() };
+                let key = self.search_key(lock, &q, exact, if fs.is_some() || blk.is_some() { fspec.to_json() } else { None }, group);
+                let r = self.handle().get_transactions(key, if desc { IndexerOrder::Desc } else { IndexerOrder::Asc }, limit.into(), None).expect("get_transactions");
+                let mut page = vec![];
+                let mut flat = vec![];
+                for o in r.objects.iter() {
+                    match o {
+                        IndexerTx::Ungrouped(x) => {
+                            let id = self.tx_id.get(&Byte32::from_slice(x.tx_hash.as_bytes()).unwrap()).map(|x| x.to_string()).unwrap_or_else(|| "?".into());
+                            let s = format!("{}@{}.{}.{}.{}", id, u64::from(x.block_number), u32::from(x.tx_index), u32::from(x.io_index), if matches!(x.io_type, IndexerCellType::Input) { "i" } else { "o" });
+                            flat.push(s.clone());
+                            page.push(s);
+                        }
+                        IndexerTx::Grouped(x) => {
+                            let id = self.tx_id.get(&Byte32::from_slice(x.tx_hash.as_bytes()).unwrap()).map(|x| x.to_string()).unwrap_or_else(|| "?".into());
+                            let mut cells = vec![];
+                            for (ty, i) in x.cells.iter() {
+                                let io = if matches!(ty, IndexerCellType::Input) { "i" } else { "o" };
+                                cells.push(format!("{}{}", io, u32::from(*i)));
+                                flat.push(format!("{}@{}.{}.{}.{}", id, u64::from(x.block_number), u32::from(x.tx_index), u32::from(*i), io));
+                            }
+                            page.push(format!("{}@{}.{}[{}]", id, u64::from(x.block_number), u32::from(x.tx_index), cells.join(";")));
+                        }
+                    }
+                }
+                if judge {
+                    let st = replay_chain(&self.chain);
+                    // the first page: `limit` rows, or the rows of the first `limit` runs of equal transaction
+                    let want = |sem: Sem| -> Vec<String> {
+                        let rows = oracle_tx_rows(&st, lock, &q, exact, &fs, &blk, desc, sem);
+                        if !group {
+                            return rows.iter().take(limit as usize).map(show_tx_row).collect();
+                        }
+                        let mut v = vec![];
+                        let mut runs = 0u32;
+                        let mut last: Option<u64> = None;
+                        for r in rows.iter() {
+                            if last != Some(r.tx) {
+                                runs += 1;
+                                last = Some(r.tx);
+                            }
+                            if runs > limit {
+                                break;
+                            }
+                            v.push(show_tx_row(r));
+                        }
+                        v
+                    };
+                    for c in classify(&flat, &want, "x-txs-neq-snapshot-filter") {
+                        out.oracle_fail(c, &format!("x {} got={:?} want={:?}", t.join(" "), flat, want(SPEC)));
+                    }
+                }
+                format!("txs {}", if page.is_empty() { "-".into() } else { page.join(",") })
+            }
+            other => panic!("malformed: x query {}", other),
+        }
+    }
+    fn pool_answer(&mut self, out: &mut Out) -> String {
+        match &self.pool {
+            None => "pool none".into(),
+            Some(p) => {
+                let mut v: Vec<(u64, u32)> = vec![];
+                for op in p.read().expect("lock").dead_cells() {
+                    let idx: u32 = op.index().into();
+                    v.push((self.tx_id.get(&op.tx_hash()).copied().unwrap_or(u64::MAX), idx));
+                }
+                v.sort();
+                let want: Vec<(u64, u32)> = self.pool_dead.iter().cloned().collect();
+                if v != want {
+                    out.oracle_fail("pool-dead-set-neq-announced-minus-committed", &format!("got={:?} want={:?}", v, want));
+                }
+                format!("pool {}", if v.is_empty() { "-".into() } else { v.iter().map(|(t, i)| format!("{}.{}", t, i)).collect::<Vec<_>>().join(",") })
+            }
+        }
     }
     fn handle(&self) -> &IndexerHandle {
         self.handle.as_ref().expect("config first")
@@ -759,7 +1029,7 @@ impl Sim {
                 let keep: u64 = t[1].parse().expect("keep");
                 let interval: u64 = t[2].parse().expect("interval");
                 assert!(interval >= 1, "malformed: prune_interval 0");
-                self.open(keep, interval);
+                self.open_pool(keep, interval, t[3..].contains(&"p"));
                 out.op(line, "ok");
             }
             "append" => {
@@ -785,7 +1055,9 @@ impl Sim {
                     (Some(_), None) => true,
                 };
                 assert!(self.has_header_rows() || self.idx().dump().is_empty(), "malformed: rollback on a store without Header rows (the code would decode a residue row as a header)");
-                self.idx().rollback().expect("rollback");
+                let post_chain: Vec<BlockSpec> = self.chain[..self.chain.len().saturating_sub(1)].to_vec();
+                let post_dead = self.pool_dead.clone();
+                self.write(out, Writer::Rollback, Some(post_chain), post_dead);
                 let snap = self.snapshots.pop();
                 self.chain.pop();
                 if !within {
@@ -824,7 +1096,7 @@ impl Sim {
                     }
                 }
                 out.count("rollback");
-                out.op(line, &ans);
+                self.emit(out, line, &ans);
                 self.check_rows(out, "after-rollback");
             }
             "prune" => {
@@ -859,7 +1131,7 @@ impl Sim {
                 if t[0] == "live" {
                     let r = self.idx().live_cells_by_script(&q.build(), if lock { KeyPrefix::CellLockScript } else { KeyPrefix::CellTypeScript }).expect("live");
                     let v: Vec<String> = r.iter().map(|op| self.decode_op(op.as_slice())).collect();
-                    let want = |sem: Sem| -> Vec<String> { oracle_cells(&st, lock, &q, false, &FilterSpec::default(), false, sem).iter().map(|s| s.split('@').next().unwrap().to_string()).collect() };
+                    let want = |sem: Sem| -> Vec<String> { oracle_cells(&st, &BTreeSet::new(), lock, &q, false, &FilterSpec::default(), false, sem).iter().map(|s| s.split('@').next().unwrap().to_string()).collect() };
                     if self.oracle_valid {
                         for c in classify(&v, &want, "live-neq-chain-filter") {
                             out.oracle_fail(c, &format!("{} got={:?} want={:?}", line, v, want(SPEC)));
@@ -947,8 +1219,13 @@ impl Sim {
                     cursor = Some(r.last_cursor);
                 }
                 let st = replay_chain(&self.chain);
-                let want = |sem: Sem| oracle_cells(&st, lock, &q, exact, &f, desc, sem);
+                let dead = self.pool_dead.clone();
+                let want = |sem: Sem| oracle_cells(&st, &dead, lock, &q, exact, &f, desc, sem);
                 let got: Vec<String> = pages.iter().flatten().cloned().collect();
+                if !dead.is_empty() && want(SPEC) != oracle_cells(&st, &BTreeSet::new(), lock, &q, exact, &f, desc, SPEC) {
+                    out.count("cells-pool-hides-rows");
+                    self.n_pool_hidden += 1;
+                }
                 if self.oracle_valid {
                     for c in classify(&got, &want, "cells-neq-chain-filter") {
                         out.oracle_fail(c, &format!("{} got={:?} want={:?}", line, got, want(SPEC)));
@@ -961,6 +1238,15 @@ impl Sim {
                 }
                 if !got.is_empty() {
                     self.n_queries_nonempty += 1;
+                }
+                if desc && !exact {
+                    let qr = q.raw();
+                    if st.live.values().any(|c| {
+                        let s = if lock { Some(&c.out.lock) } else { c.out.type_.as_ref() };
+                        s.map(|s| { let r = s.raw(); r.starts_with(&qr) && r.len() >= qr.len() + 16 && r[qr.len()..qr.len() + 16].iter().all(|b| *b == 255) }).unwrap_or(false)
+                    }) {
+                        out.count(if got.is_empty() { "cells-desc-seek-over-long-ff-run-EMPTY" } else { "cells-desc-seek-over-long-ff-run" });
+                    }
                 }
                 out.count(if exact { "cells-exact" } else { "cells-prefix" });
                 if pages.len() > 2 {
@@ -1000,23 +1286,49 @@ impl Sim {
                         if ans == "cap none" && self.chain.is_empty() {
                             return None;
                         }
-                        Some(
-                            st.live
-                                .values()
-                                .filter(|c| {
-                                    let s = if lock { Some(&c.out.lock) } else { c.out.type_.as_ref() };
-                                    s.map(|s| script_matches(&q, exact, s, &sort_key(s, c.bn, c.txi, c.op.1, None), sem)).unwrap_or(false) && cell_passes(&f, lock, c, sem.len_incl)
-                                })
-                                .map(|c| c.out.cap)
-                                .sum(),
-                        )
+                        Some(oracle_capacity(&st, &self.pool_dead, lock, &q, exact, &f, sem))
                     };
+                    if !self.pool_dead.is_empty() && want(SPEC) != Some(oracle_capacity(&st, &BTreeSet::new(), lock, &q, exact, &f, SPEC)) {
+                        out.count("cap-pool-hides-rows");
+                    }
                     for c in classify(&got_sum, &want, "capacity-neq-chain-filter") {
                         out.oracle_fail(c, &format!("{} got={} want={:?}", line, ans, want(SPEC)));
                     }
                 }
                 out.count("cap");
                 out.op(line, &ans);
+            }
+            "pnew" | "prej" => {
+                assert!(self.pool.is_some(), "malformed: pool op without `config .. p`");
+                let spec = TxSpec::parse(t[1]);
+                let tx = self.build_tx(&spec);
+                let mut post_dead = self.pool_dead.clone();
+                for i in spec.inputs.iter() {
+                    if t[0] == "pnew" {
+                        post_dead.insert(*i);
+                    } else {
+                        post_dead.remove(i);
+                    }
+                }
+                let w = if t[0] == "pnew" { Writer::PoolNew(tx) } else { Writer::PoolReject(tx) };
+                self.write(out, w, None, post_dead.clone());
+                self.pool_dead = post_dead;
+                let ans = self.pool_answer(out);
+                out.count(t[0]);
+                self.emit(out, line, &ans);
+            }
+            "pdead" => {
+                let ans = self.pool_answer(out);
+                out.op(line, &ans);
+            }
+            "x" => {
+                let pos = t.iter().position(|x| *x == "&&").expect("malformed: x without &&");
+                assert!(pos >= 2 && pos + 1 < t.len(), "malformed: x needs a query and a writer op");
+                assert!(matches!(t[pos + 1], "append" | "rollback" | "pnew" | "prej"), "malformed: x needs a writer op");
+                self.x_pending = Some((line.to_string(), t[1..pos].iter().map(|s| s.to_string()).collect()));
+                let w = t[pos + 1..].join(" ");
+                self.exec(out, &w);
+                assert!(self.x_pending.is_none() && self.x_emit.is_none(), "x: the writer op did not run");
             }
             "dump" => {
                 let rows = self.dump_rows();
@@ -1112,7 +1424,21 @@ impl Sim {
             out.count("append-with-same-block-spend");
         }
         let had_consumed = self.idx().dump().iter().filter(|(k, _)| k[0] == 32).count();
-        self.idx().append(block).expect("append");
+        let mut post_chain = self.chain.clone();
+        post_chain.push(spec.clone());
+        let mut post_dead = self.pool_dead.clone();
+        if self.pool.is_some() {
+            for tx in spec.txs.iter() {
+                for i in tx.inputs.iter() {
+                    post_dead.remove(i);
+                }
+            }
+        }
+        if post_dead.len() < self.pool_dead.len() {
+            out.count("append-commits-pool-dead-cells");
+        }
+        self.write(out, Writer::Append(block.clone()), Some(post_chain), post_dead.clone());
+        self.pool_dead = post_dead;
         let has_consumed_old = self.idx().dump().iter().filter(|(k, _)| k[0] == 32 && u64::from_be_bytes(k[1..9].try_into().unwrap()) < spec.number).count();
         if has_consumed_old < had_consumed {
             self.n_prune_effective += 1;
@@ -1128,7 +1454,7 @@ impl Sim {
             }
         }
         out.count("append");
-        out.op(line, &ans);
+        self.emit(out, line, &ans);
         self.check_rows(out, "after-append");
     }
 
@@ -1300,6 +1626,8 @@ struct Gen {
     unresolvable_anywhere: bool,
     /// (rich stream) number of the first block of a case: the index starts late
     start_number: u64,
+    /// transactions announced to the overlay (`pnew`) and not yet committed or rejected
+    pool_txs: Vec<TxSpec>,
 }
 
 fn script_pool(rng: &mut Rng, probe_known: bool) -> Vec<ScriptSpec> {
@@ -1309,6 +1637,16 @@ fn script_pool(rng: &mut Rng, probe_known: bool) -> Vec<ScriptSpec> {
         args.push(vec![1, 0]);
         args.push(vec![0]);
         args.push(vec![1, 0, 0]);
+    }
+    // args that continue a searched prefix with a long run of 0xff (16 = the length of the cell-key suffix, 17 = of the
+    // tx-key suffix, 20 = the customary all-0xff "burn" args): the descending seek key must still lie above their rows
+    if rng.chance(1, 2) {
+        for (head, n) in [(vec![], 16usize), (vec![], 17), (vec![], 20), (vec![1u8], 17), (vec![1, 2], 18), (vec![255, 254], 17)] {
+            let mut a: Vec<u8> = head;
+            a.extend(std::iter::repeat(255u8).take(n));
+            args.push(a.clone());
+            args.push(a);
+        }
     }
     let n = rng.range(2, 6) as usize;
     let mut v = vec![];
@@ -1323,7 +1661,7 @@ fn script_pool(rng: &mut Rng, probe_known: bool) -> Vec<ScriptSpec> {
 
 impl Gen {
     fn new(scripts: Vec<ScriptSpec>, probe_known: bool, max_code: u64) -> Gen {
-        Gen { next_tx: 1, next_block: 1, orphans: vec![], scripts, probe_known, max_code, reserved: BTreeSet::new(), force_inputs: vec![], prefer_orphans: false, unresolvable_anywhere: false, start_number: 0 }
+        Gen { next_tx: 1, next_block: 1, orphans: vec![], scripts, probe_known, max_code, reserved: BTreeSet::new(), force_inputs: vec![], prefer_orphans: false, unresolvable_anywhere: false, start_number: 0, pool_txs: vec![] }
     }
     fn rand_output(&self, rng: &mut Rng) -> OutSpec {
         let lock = rng.pick(&self.scripts).clone();
@@ -1377,6 +1715,20 @@ impl Gen {
                     continue;
                 }
             }
+            // commit a transaction the overlay knows (its inputs leave the overlay)
+            if !self.pool_txs.is_empty() && rng.chance(1, 2) {
+                let k = rng.below(self.pool_txs.len() as u64) as usize;
+                let o = self.pool_txs[k].clone();
+                if !on_chain.contains(&o.id) && !txs.iter().any(|t: &TxSpec| t.id == o.id) && !o.inputs.is_empty() && o.inputs.iter().all(|i| avail.contains(i)) {
+                    avail.retain(|a| !o.inputs.contains(a));
+                    for oi in 0..o.outputs.len() {
+                        avail.push((o.id, oi as u32));
+                    }
+                    txs.push(o);
+                    self.pool_txs.remove(k);
+                    continue;
+                }
+            }
             let lo = if rng.chance(1, 8) { 0 } else { 1 };
             let n_in = if avail.is_empty() { 0 } else { rng.range(lo, 3.min(avail.len() as u64)) };
             let mut inputs = vec![];
@@ -1411,6 +1763,12 @@ impl Gen {
     }
     fn rand_query_script(&self, rng: &mut Rng) -> ScriptSpec {
         let mut s = rng.pick(&self.scripts).clone();
+        if s.args.len() >= 16 && rng.chance(2, 3) {
+            // a stored script with a long 0xff tail: search by the head, cut 16 / 17 / 18 bytes before its end
+            let cut = *rng.pick(&[16usize, 17, 17, 18]);
+            s.args.truncate(s.args.len().saturating_sub(cut));
+            return s;
+        }
         match rng.below(6) {
             0 => {
                 s.args.truncate(rng.below(s.args.len() as u64 + 1) as usize);
@@ -1618,15 +1976,132 @@ impl Gen {
     }
 }
 
+impl Gen {
+    /// an overlay op: announce a transaction (spends live cells — some already dead in the overlay: a conflict —, an
+    /// output of another announced transaction, rarely an unknown or the null out-point) or reject one
+    fn pool_op_line(&mut self, rng: &mut Rng, sim: &Sim) -> String {
+        if !self.pool_txs.is_empty() && rng.chance(1, 4) {
+            let k = rng.below(self.pool_txs.len() as u64) as usize;
+            let tx = self.pool_txs.remove(k);
+            return format!("prej {}", tx.show());
+        }
+        let st = replay_chain(&sim.chain);
+        let live: Vec<(u64, u32)> = st.live.keys().cloned().collect();
+        let mut inputs: Vec<(u64, u32)> = vec![];
+        let n_in = rng.range(1, 3);
+        for _ in 0..n_in {
+            let c = match rng.below(12) {
+                0 if !self.pool_txs.is_empty() => {
+                    let p = rng.pick(&self.pool_txs);
+                    if p.outputs.is_empty() { (p.id, 0) } else { (p.id, rng.below(p.outputs.len() as u64) as u32) }
+                }
+                1 => (3_000_000 + self.next_tx, 0),
+                2 if rng.chance(1, 4) => (NULL_TX, NULL_IDX),
+                _ if !live.is_empty() => {
+                    // bias to the youngest cells (the ones queries and the next blocks touch)
+                    if rng.chance(1, 2) { live[live.len() - 1 - rng.below(live.len().min(4) as u64) as usize] } else { *rng.pick(&live) }
+                }
+                _ => (3_000_000 + self.next_tx, 1),
+            };
+            if !inputs.contains(&c) {
+                inputs.push(c);
+            }
+        }
+        let n_out = rng.range(0, 2);
+        let tx = TxSpec { id: self.next_tx, inputs, outputs: (0..n_out).map(|_| self.rand_output(rng)).collect() };
+        self.next_tx += 1;
+        self.pool_txs.push(tx.clone());
+        format!("pnew {}", tx.show())
+    }
+    /// a query by the lock / type script of a live cell the overlay op `l` names as an input
+    fn pool_probe_line(&self, rng: &mut Rng, sim: &Sim, l: &str) -> Option<String> {
+        let tx = TxSpec::parse(l.split(' ').nth(1)?);
+        let st = replay_chain(&sim.chain);
+        let cells: Vec<&OCell> = tx.inputs.iter().filter_map(|i| st.live.get(i)).collect();
+        if cells.is_empty() {
+            return None;
+        }
+        let c = *rng.pick(&cells);
+        let by_lock = c.out.type_.is_none() || rng.chance(1, 2);
+        let s = if by_lock { &c.out.lock } else { c.out.type_.as_ref().unwrap() };
+        let kind = if by_lock { "lock" } else { "type" };
+        let mode = if rng.chance(1, 2) { "exact" } else { "pre" };
+        Some(match rng.below(3) {
+            0 => format!("cap {} {} {} - - - - - -", kind, s.show(), mode),
+            _ => format!("cells {} {} {} {} {} - - - - - -", kind, s.show(), mode, if rng.chance(1, 2) { "asc" } else { "desc" }, *rng.pick(&[1u32, 2, 100])),
+        })
+    }
+    /// a one-call query for an `x` op: taken from a live cell when possible
+    fn x_query_line(&self, rng: &mut Rng, sim: &Sim) -> String {
+        for _ in 0..6 {
+            let l = if rng.chance(2, 3) { self.edge_query(rng, sim).map(|x| x.1) } else { Some(self.rand_query(rng, sim)) };
+            if let Some(l) = l {
+                let t: Vec<&str> = l.split(' ').collect();
+                if matches!(t[0], "cells" | "cap" | "txs") && t[3] != "part" {
+                    return l;
+                }
+            }
+        }
+        "cap lock 1 pre - - - - - -".to_string()
+    }
+    /// `x <query> && <writer>`: the writer is the next block (it spends the cells the query lists, commits overlay
+    /// transactions), a rollback inside the retention, or an overlay op
+    fn x_op(&mut self, out: &mut Out, rng: &mut Rng, sim: &mut Sim, with_pool: bool) {
+        let q = self.x_query_line(rng, sim);
+        let r = rng.below(10);
+        if r < 6 {
+            let b = self.gen_block(rng, sim);
+            let args = format!("{} {} {}", b.number, b.id, b.txs.iter().map(|t| t.show()).collect::<Vec<_>>().join(" "));
+            sim.exec(out, &format!("wf {}", args));
+            sim.exec(out, &format!("x {} && append {}", q, args));
+        } else if r < 8 || !with_pool {
+            let within = match sim.floor {
+                Some(f) => sim.chain.last().map(|b| b.number > f + 1).unwrap_or(false),
+                None => true,
+            };
+            if sim.chain.len() >= 2 && within {
+                if let Some(b) = sim.chain.last() {
+                    for t in b.txs.iter().skip(1) {
+                        self.orphans.push(t.clone());
+                    }
+                }
+                sim.n_reorg += 1;
+                sim.exec(out, &format!("x {} && rollback", q));
+            }
+        } else {
+            let w = self.pool_op_line(rng, sim);
+            sim.exec(out, &format!("x {} && {}", q, w));
+        }
+    }
+}
+
 fn gen_case(out: &mut Out, rng: &mut Rng, sim: &mut Sim, steps: usize, probe_known: bool) {
     sim.reset();
     let keep = *rng.pick(&[0u64, 1, 2, 3, 5, 100]);
     let interval = *rng.pick(&[1u64, 1, 2, 3, 1000]);
-    out.begin_case(&format!("keep={} interval={}", keep, interval));
-    sim.exec(out, &format!("config {} {}", keep, interval));
+    // half of the cases run with the tx-pool overlay
+    let with_pool = rng.chance(1, 2);
+    out.begin_case(&format!("keep={} interval={}{}", keep, interval, if with_pool { " pool" } else { "" }));
+    sim.exec(out, &format!("config {} {}{}", keep, interval, if with_pool { " p" } else { "" }));
     let mut g = Gen::new(script_pool(rng, probe_known), probe_known, 4);
     for _ in 0..steps {
         let r = rng.below(100);
+        if !sim.chain.is_empty() && rng.chance(1, 12) {
+            // a handler call with a writer between its snapshot and the rest of it
+            g.x_op(out, rng, sim, with_pool);
+            continue;
+        }
+        if with_pool && !sim.chain.is_empty() && rng.chance(1, 5) {
+            let l = g.pool_op_line(rng, sim);
+            sim.exec(out, &l);
+            // ask for the cells the overlay now hides (or shows again), by the script of one of them
+            if rng.chance(2, 3) {
+                if let Some(q) = g.pool_probe_line(rng, sim, &l) {
+                    sim.exec(out, &q);
+                }
+            }
+            continue;
+        }
         if r < 50 || sim.chain.is_empty() {
             let b = g.gen_block(rng, sim);
             sim.wf_and_append(out, &b);
@@ -1660,9 +2135,12 @@ fn gen_case(out: &mut Out, rng: &mut Rng, sim: &mut Sim, steps: usize, probe_kno
             g.query_op(out, rng, sim);
         }
     }
+    if with_pool {
+        sim.exec(out, "pdead");
+    }
     sim.exec(out, "dump");
     if sim.n_reorg > 0 && sim.n_same_block_spend > 0 && sim.n_queries_nonempty > 0 {
-        out.nontrivial(format!("k{}i{}r{}s{}p{}b{}", keep, interval, sim.n_reorg.min(5), sim.n_same_block_spend.min(5), sim.n_prune_effective.min(3), sim.chain.len()));
+        out.nontrivial(format!("k{}i{}r{}s{}p{}b{}{}", keep, interval, sim.n_reorg.min(5), sim.n_same_block_spend.min(5), sim.n_prune_effective.min(3), sim.chain.len(), if with_pool { format!("o{}x{}", sim.n_pool_hidden.min(3), sim.n_x_torn.min(3)) } else { String::new() }));
     }
 }
 
@@ -2061,6 +2539,39 @@ impl Sim {
         }
         BlockSpec { number: b.number(), id, txs }
     }
+    /// overlay on: the block's non-cellbase transactions are announced (two out of three of them) the way the tx-pool
+    /// subscription does for pending transactions, then the cells they spend are asked for (pool-pending view); the
+    /// `append` that follows commits them (pool-committed view)
+    fn real_announce(&mut self, out: &mut Out, block: &BlockView) {
+        let spec = self.translate_block(block);
+        let mut probe: Option<(u64, u32)> = None;
+        for (tx, ts) in block.transactions().iter().zip(spec.txs.iter()).skip(1) {
+            if ts.id % 3 == 0 {
+                continue;
+            }
+            let mut post_dead = self.pool_dead.clone();
+            for i in ts.inputs.iter() {
+                post_dead.insert(*i);
+            }
+            self.write(out, Writer::PoolNew(tx.clone()), None, post_dead.clone());
+            self.pool_dead = post_dead;
+            let ans = self.pool_answer(out);
+            out.count("pnew");
+            out.count("real-tx-announced-before-its-block");
+            out.op(&format!("pnew {}", ts.show()), &ans);
+            if probe.is_none() {
+                probe = ts.inputs.first().cloned();
+            }
+        }
+        if let Some(i) = probe {
+            let st = replay_chain(&self.chain);
+            if let Some(c) = st.live.get(&i) {
+                let l = c.out.lock.show();
+                self.exec(out, &format!("cells lock {} exact desc 100 - - - - - -", l));
+                self.exec(out, &format!("cap lock {} pre - - - - - -", l));
+            }
+        }
+    }
     /// `wf` + `append` of a REAL block (the indexer gets the node's BlockView, the model its translation)
     fn real_append(&mut self, out: &mut Out, block: &BlockView) {
         let spec = self.translate_block(block);
@@ -2080,6 +2591,9 @@ impl Sim {
                         None => break,
                     };
                     if block.parent_hash() == tip_hash {
+                        if self.pool.is_some() {
+                            self.real_announce(out, &block);
+                        }
                         self.real_append(out, &block);
                         n_app += 1;
                     } else {
@@ -2249,7 +2763,9 @@ fn realnode_case(out: &mut Out, rng: &mut Rng, sim: &mut Sim, case_idx: u64, n_b
     out.begin_case(&format!("realnode keep={} interval={} window={}.{} epoch={} blocks={}", keep, interval, window.0, window.1, cfg.epoch_len, pl.deliveries.len()));
     sim.set_codes(table);
     sim.wf_class = "wf-hypothesis-false-on-real-chain";
-    sim.exec(out, &format!("config {} {}", keep, interval));
+    // every second real-node case runs with the tx-pool overlay: the transactions of a block are announced to it
+    // (as the node's tx-pool does while they are pending) before the block is indexed
+    sim.exec(out, &format!("config {} {}{}", keep, interval, if case_idx % 2 == 1 { " p" } else { "" }));
     let node = Node::start(&base.join("node"), consensus.clone(), &cfg);
     // scripts for the queries: every script of the tree
     let mut scripts: BTreeSet<ScriptSpec> = BTreeSet::new();
